@@ -639,3 +639,52 @@ package pongo2
 //@   ensures {C19} @missing-refused !old(has(tags, name)) ==> (r0 != nil && mapdom(tags) == old(mapdom(tags)) && mapvals(tags) == old(mapvals(tags)))
 //@ func (*Parser).parseTagElement
 //@   ensures {C19} @unknown-tag-is-a-compile-error true
+
+// ---- template inheritance (C10) ----
+// the child link is only ever set on the parent compiled by the very extends tag that sets it
+//@ writers {C10} F|Template|child
+//@ writers {C10} F|Template|parent tagExtendsParser
+//@ writers {C10} F|Template|blocks newTemplate
+//@ type Template
+//@   invariant {C10} self.parent != nil ==> (self.parent.child == self && birth(self.parent) > birth(self))
+//@   invariant {C10} self.child != nil ==> (self.child.parent == self && birth(self.child) < birth(self))
+//@ func newTemplate
+//@   ensures {C10} @new-template-has-no-child r1 == nil ==> (fresh(r0) && r0.child == nil)
+//@   ensures {C10} @error-is-not-a-typed-nil r1 != nil ==> unbox(r1, "*Error") != nil
+//@ func (*TemplateSet).FromFile
+//@   ensures {C10} @new-template-has-no-child r1 == nil ==> (fresh(r0) && r0.child == nil)
+//@   ensures {C10} @error-is-not-a-typed-nil r1 != nil ==> unbox(r1, "*Error") != nil
+//@ func tagExtendsParser
+//@   ensures {C10} @nested-extends-is-an-error old(doc.template.level) > 1 ==> r1 != nil
+//@   ensures {C10} @second-extends-is-an-error old(doc.template.parent) != nil ==> r1 != nil
+//@   ensures {C10} @links-a-new-parent r1 == nil ==> (doc.template.parent != nil && fresh(doc.template.parent))
+//@   ensures {C10} @parent-points-back r1 == nil ==> doc.template.parent.child == doc.template
+//@   ensures {C10} @parent-is-the-template-compiled-from-the-written-name r1 == nil ==> doc.template.parent == lastresult("(*TemplateSet).FromFile")
+//@   ensures {C10} @own-child-link-untouched doc.template.child == old(doc.template.child)
+//@ func (*Template).newContextForExecution
+//@   invariant 1 @walks-up parent != nil && (parent == tpl || (parent.child != nil && tpl.parent != nil))
+//@   decreases 1 {C10} @towards-the-root now - birth(parent)
+//@   ensures {C10} @starts-at-the-root r2 == nil ==> (r0 != nil && r0.parent == nil)
+//@   ensures {C10} @context-executes-the-root r2 == nil ==> (r1 != nil && r1.template == r0)
+//@   ensures {C10} @no-parent-means-itself (r2 == nil && tpl.parent == nil) ==> r0 == tpl
+//@ func (*Template).execute
+//@   at (*nodeDocument).Execute requires {C10} @runs-the-root-document-only arg0 == parent.root && arg1 == ctx && arg2 == writer
+//@ func (*tagBlockNode).getBlockWrappers
+//@   at append[*NodeWrapper] requires {C10} @definition-of-the-current-template elem != nil && has(cur_tpl.blocks, node.name) && elem == cur_tpl.blocks[node.name]
+//@   decreases 0 {C10} @towards-the-leaf birth(cur_tpl) + 2
+//@ func (*tagBlockNode).Execute
+//@   at (*tagBlockNode).getBlockWrappers requires {C10} @lookup-starts-at-the-executing-root arg0 == node && arg1 == ctx.template
+//@   at (*NodeWrapper).Execute requires {C10} @most-derived-definition-runs arg0 == blockWrappers[len(blockWrappers) - 1] && arg1 == ctx && arg2 == writer
+//@   at mapupdate requires {C10} @super-chain-is-the-rest m == ctx.Private && k == "block" && typeis(v, "tagBlockInformation") && unbox(v, "tagBlockInformation").ctx == ctx && arr(unbox(v, "tagBlockInformation").wrappers) == arr(blockWrappers) && off(unbox(v, "tagBlockInformation").wrappers) == off(blockWrappers) && len(unbox(v, "tagBlockInformation").wrappers) == len(blockWrappers) - 1
+//@ func (tagBlockInformation).Super
+//@   at (*NodeWrapper).Execute requires {C10} @next-less-derived-definition-runs arg0 == t.wrappers[len(t.wrappers) - 1] && arg1 == superCtx && fresh(superCtx)
+//@   at NewChildExecutionContext requires {C10} @child-of-the-block-context arg0 == t.ctx
+//@   at mapupdate requires {C10} @super-chain-shrinks m == superCtx.Private && k == "block" && typeis(v, "tagBlockInformation") && arr(unbox(v, "tagBlockInformation").wrappers) == arr(t.wrappers) && off(unbox(v, "tagBlockInformation").wrappers) == off(t.wrappers) && len(unbox(v, "tagBlockInformation").wrappers) == len(t.wrappers) - 1
+//@   ensures {C10} @empty-at-the-base len(t.wrappers) == 0 ==> (r1 == nil && r0 != nil && r0.safe)
+//@   at AsSafeValue#0 requires {C10} @empty-string-at-the-base len(t.wrappers) == 0 && typeis(arg0, "string") && unbox(arg0, "string") == ""
+//@   ensures {C10} @base-result-is-that-value len(t.wrappers) == 0 ==> r0 == lastresult("AsSafeValue")
+//@   ensures {C10} @result-is-markup r0 != nil && r0.safe
+//@ func tagBlockParser
+//@   at mapupdate requires {C10} @registers-in-own-table-once m == doc.template.blocks && k == nameToken.Val && v == wrapper && !has(doc.template.blocks, nameToken.Val)
+//@   ensures {C10} @success-means-registered r1 == nil ==> (has(doc.template.blocks, nameToken.Val) && doc.template.blocks[nameToken.Val] == wrapper)
+//@   ensures {C10} @node-carries-the-name r1 == nil ==> (r0 != nil && typeis(r0, "*tagBlockNode") && unbox(r0, "*tagBlockNode").name == nameToken.Val)
